@@ -31,7 +31,7 @@ STUBBED_NAMES = fsmodel.STUBBED_NAMES
 ASSUMPTIONS = [fastenv.ASSUMPTION, "file-system model = POSIX as validated by the differential self-test of this run", "clock stub"]
 OUTSIDE = ["pipelines other than P1 (nested keep)", "DBFS store"]
 FUNCTIONS_ENCODED = ["dds._api._parse_stages", "dds._api._eval", "dds._api._eval_new_ctx", "dds.structures.ProcessingStage.all_phases", "dds.store.MemoryStore.*", "dds.store.LocalFileStore.*"]
-BOUNDS = {"quick": {"parse": "lists of 0..5 elements; each element one of the 5 stages in 5 spellings (lists of 3..5 elements: one spelling per query), or one of 14 adversarial non-stage values (enum attribute names, near misses, non-str); elements after the first invalid one are pinned", "run": "prefix length 0..5 x 3 spellings x {cold, committed} x {memory, local}"}}
+BOUNDS = {"quick": {"parse": "lists of 0..5 elements; each element one of the 5 stages in 5 spellings (lists of 3..5 elements: one spelling per query), or one of 14 adversarial non-stage values (enum attribute names, near misses, non-str); elements after the first invalid one are pinned", "run": "prefix length 0..5 x 3 spellings x 6 store pre-states (cold; the other version committed; all blobs of the evaluated version present but the paths serving the other version; up to date; the last two also with the root itself kept, so that the root's own blob exists) x {memory, local}"}}
 BOUNDS["thorough"] = BOUNDS["quick"]
 LAST_DETAIL = [""]
 ORDER = ProcessingStage.all_phases()
@@ -115,12 +115,16 @@ class _Rec(RecordingStore):
         return self.inner.store_blob(key, blob, codec)
 
 
+PRE_HISTORY = [[], [1], [2, 1], [2], [2, 1], [2]]
+PRE_NAMES = ["cold", "version 1 committed", "version 2 then version 1 committed", "version 2 committed", "version 2 then version 1 kept at /top", "version 2 kept at /top"]
+
+
 def run_impl(a):
     h.enter()
     if h.blocked(**a):
         return True
     sel = h.SEL
-    n, sp, pre = a["n"], a["sp"], a["pre"]
+    n, sp, pre = a["n"], a["sp"], sel["pre"]
     tick.PAYLOAD.clear()
     tick.PAYLOAD.update({"inner": a["pay"], "outer": ""})
     h.fresh_process()
@@ -133,14 +137,18 @@ def run_impl(a):
     ok = True
 
     def bad(msg):
-        LAST_DETAIL[0] = "stages=%d first stages (spelling %d), %s store: %s" % (n, sp, "committed" if pre else "cold", msg)
+        LAST_DETAIL[0] = "stages=%d first stages (spelling %d), %s store: %s" % (n, sp, PRE_NAMES[pre], msg)
         return False
 
-    old = None
-    if pre:
-        p1.VERSION = 1
-        dds.eval(p1.root)
-        old = p1.plain()
+    # pre-state: 0 cold; 1 version 1 committed; 2 version 2 and then version 1 committed (every blob of the version about to be
+    # evaluated is already in the store while the paths serve the other version); 3 version 2 committed (everything up to date)
+    # 4, 5: as 2, 3 but the root itself was kept (dds.keep("/top", root)), so that the blob of the root's own signature exists too
+    for v in PRE_HISTORY[pre]:
+        p1.VERSION = v
+        if pre >= 4:
+            dds.keep("/top", p1.root)
+        else:
+            dds.eval(p1.root)
     p1.VERSION = 2
     want = p1.plain()
     # reference: signatures of an unrestricted analysis (captured from a full run against a scratch store)
@@ -207,13 +215,13 @@ def make_fn(fn, sel, tag):
                 params += [("s%d" % j, "int")]
                 pres += ["0 <= s%d <= 4" % j]
         return h.gen_fn(tag, "parse", params, pres, "harness.C15", "parse_impl")
-    return h.gen_fn(tag, "run", [("n", "int"), ("sp", "int"), ("pre", "int"), ("pay", "str")], ["0 <= n <= 5", "0 <= sp <= 2", "0 <= pre <= 1", "len(pay) <= 1 and pay.isascii()"], "harness.C15", "run_impl")
+    return h.gen_fn(tag, "run", [("n", "int"), ("sp", "int"), ("pay", "str")], ["0 <= n <= 5", "0 <= sp <= 2", "len(pay) <= 1 and pay.isascii()"], "harness.C15", "run_impl")
 
 
 def queries(tier):
     qs = [{"id": "parse.%d" % n, "fn": "parse", "sel": {"n": n}, "timeout": 400} for n in range(0, 3)]
     qs += [{"id": "parse.%d.sp%d" % (n, sp), "fn": "parse", "sel": {"n": n, "sp": sp}, "timeout": 400} for n in (3, 4, 5) for sp in range(5)]
-    qs += [{"id": "run.%s" % s, "fn": "run", "sel": {"store": s}, "timeout": 400} for s in ("memory", "local")]
+    qs += [{"id": "run.%s.pre%d" % (s, pre), "fn": "run", "sel": {"store": s, "pre": pre}, "timeout": 400} for s in ("memory", "local") for pre in range(6)]
     return qs
 
 
